@@ -965,6 +965,10 @@ def fuzz_inputs(ctx, scale):
                     ln = len(body)
                 elif variant % 4 == 2:
                     ln = 1
+                elif variant % 4 == 0:
+                    ln = 5                 # just the tag + length header of the single nested element
+                elif variant % 4 == 1:
+                    ln = 6                 # key octet + tag + length header of the nested element
                 else:
                     ln = rng.choice([0, 1, 2, 5, 6, max(0, len(body) - 1), len(body) // 2])
                 v = k.encode() + struct.pack('>I', ln) + body
